@@ -10,12 +10,13 @@ from vmc.oracles.scene import Glyph, Group, Shape, place
 
 DIMS = {
     "variant": ["translate", "scale", "nonuniform", "shrink"],
-    "masters": ["two_default_min", "two_default_max", "three_default_middle"],
+    "masters": ["two_default_min", "two_default_max", "three_default_middle", "three_default_min"],
     "metrics": [[1024, 950, -250], [1000, 800, -200], [2048, 1900, -500]],
     "width": [1275, 0, 3000],
     "scene": ["base", "nogroup", "three_glyphs", "reuse_rot"],
     "range": ["300-700", "100-900", "0-1"],
     "master_names": ["plain", "suffix"],
+    "toml_order": ["ascending", "descending", "default_last"],
 }
 K = {"quick": 1, "thorough": 2}
 VARIANT = {
@@ -45,7 +46,7 @@ def master_scenes(a):
         return [Glyph(g.cps, g.vb, [move(n, mm) for n in g.nodes]) for g in glyphs]
 
     half = tuple((x + y) / 2 for x, y in zip(aff.I, m))
-    if a["masters"] == "three_default_middle":
+    if a["masters"].startswith("three"):
         return [glyphs, moved(half), moved(m)], over
     return [glyphs, moved(m)], over
 
@@ -57,7 +58,7 @@ def positions(a):
     if a["masters"] == "two_default_max":
         return [lo, hi], hi
     mid = (lo + hi) / 2
-    return [lo, mid, hi], mid
+    return [lo, mid, hi], (mid if a["masters"] == "three_default_middle" else lo)
 
 
 def instance(data, loc):
@@ -91,7 +92,15 @@ def execute(dev):
                "axis": {"wght": {"name": "Weight", "default": default}}, "master": {}}
         # master names: plain (m0, m1, ...) or names one of which is a suffix of an earlier one
         mnames = [f"m{i}" for i in range(len(masters))] if a["master_names"] == "plain" else ["regular", "semibold", "bold"][-len(masters):] if len(masters) == 2 else ["regular", "semibold", "bold"]
-        for i, (gl, p) in enumerate(zip(masters, pos)):
+        # the order in which the masters appear in the TOML is not the order of their positions
+        idx = list(range(len(masters)))
+        if a["toml_order"] == "descending":
+            idx.reverse()
+        elif a["toml_order"] == "default_last":
+            di_ = pos.index(default)
+            idx = [i for i in idx if i != di_] + [di_]
+        for i in idx:
+            gl, p = masters[i], pos[i]
             files = cli.write_sources(w / f"m{i}", [(f"emoji_u{'_'.join('%04x' % c for c in g.cps)}.svg", g.svg()) for g in gl])
             cfg["master"][mnames[i]] = {"style_name": mnames[i].title(), "position": {"wght": p}, "srcs": [str(f) for f in files]}
         (w / "vf.toml").write_text(toml.dumps(cfg))
@@ -188,7 +197,7 @@ def run(report, tier, only=None):
     report.extra["deviation_bound"] = k
     report.rule = (
         "E1 over master derivation (translate / scale / non-uniform scale / shrink of all coordinates of one scene) x master layout (two masters with the "
-        "default at min or max, three with the default in the middle) x axis range x metrics x width x scene (group, no group, three glyphs, rotated reuse), "
+        "default at min or max, three with the default in the middle or at the min) x order of the masters in the TOML x axis range x metrics x width x scene (group, no group, three glyphs, rotated reuse), "
         "<= %d deviations, each built with the real CLI from a multi-master TOML; the VF is instantiated with fontTools.varLib.instancer at every master "
         "location and compared (advance, layer list, outline positions, picture) with a static build of that master; default location; clip box vs "
         "interpolated outlines at t = 1/4, 1/2, 3/4; distinct = master layout x derivation x scene" % k
